@@ -37,7 +37,8 @@ const rule = "case = (placement of root/intermediate/leaf/unrelated certificates
 type Case struct {
 	Stores     map[string]string `json:"stores"`     // "type:name" -> content letters
 	Statements [][]string        `json:"statements"` // store lists; statement k has scope repoK (last may be wildcard)
-	Wildcard   bool              `json:"wildcard"`   // last statement uses the wildcard scope
+	Wildcard   bool              `json:"wildcard"`   // one statement uses the wildcard scope ...
+	WildcardAt int               `json:"wildcardAt"` // ... namely this one (any position: before or after the exact-scope statements)
 	Select     int               `json:"select"`     // which statement the reference selects
 	Scheme     string            `json:"scheme"`
 	Format     string            `json:"format"`
@@ -194,7 +195,7 @@ func check(c Case) (string, string, bool) {
 	for k, list := range c.Statements {
 		st := trustpolicy.OCITrustPolicy{Name: fmt.Sprintf("st%d", k), SignatureVerification: c.Level.SV(""), TrustStores: list,
 			TrustedIdentities: []string{"*"}, RegistryScopes: []string{scopeOf(k)}}
-		if c.Wildcard && k == len(c.Statements)-1 {
+		if c.Wildcard && k == c.WildcardAt {
 			st.RegistryScopes = []string{"*"}
 		}
 		doc.TrustPolicies = append(doc.TrustPolicies, st)
@@ -206,7 +207,7 @@ func check(c Case) (string, string, bool) {
 		return "harness", "verifier construction: " + err.Error(), false
 	}
 	refFor := func(sel int) string {
-		if c.Wildcard && sel == len(c.Statements)-1 {
+		if c.Wildcard && sel == c.WildcardAt {
 			return "registry.example/c03/unlisted@" + desc.Digest.String()
 		}
 		return scopeOf(sel) + "@" + desc.Digest.String()
@@ -325,6 +326,9 @@ func record(rec *stats.Recorder, c Case, pass bool) {
 	if c.Token {
 		cl = append(cl, "with-timestamp-token")
 	}
+	if c.Wildcard && c.WildcardAt < len(c.Statements)-1 {
+		cl = append(cl, "wildcard-statement-before-exact")
+	}
 	if c.RealStore {
 		cl = append(cl, "real-directory-store")
 	}
@@ -342,7 +346,7 @@ func record(rec *stats.Recorder, c Case, pass bool) {
 		keys = append(keys, k+"="+v)
 	}
 	sort.Strings(keys)
-	rec.Case(dedup(cl), nt, stats.Fingerprint(strings.Join(keys, ";"), fmt.Sprint(c.Statements), c.Wildcard, c.Select, c.Scheme, c.Format, c.Level.Key(), c.RealStore, fmt.Sprint(c.Warmup)), func() any { return c })
+	rec.Case(dedup(cl), nt, stats.Fingerprint(strings.Join(keys, ";"), fmt.Sprint(c.Statements), c.Wildcard, c.WildcardAt, c.Select, c.Scheme, c.Format, c.Level.Key(), c.RealStore, fmt.Sprint(c.Warmup)), func() any { return c })
 }
 
 func dedup(in []string) []string {
@@ -387,6 +391,7 @@ func TestC03_Placements(t *testing.T) {
 			c.Statements = append(c.Statements, list)
 		}
 		c.Wildcard = rapid.Bool().Draw(rt, "wildcard")
+		c.WildcardAt = rapid.IntRange(0, n-1).Draw(rt, "wildcardAt")
 		c.Select = rapid.IntRange(0, n-1).Draw(rt, "select")
 		for i := 0; i < rp.Pick(rt, "warmups", 0, 0, 1, 2, 3); i++ {
 			c.Warmup = append(c.Warmup, Step{Scheme: rp.Pick(rt, "wScheme", "x509", "sa"), Format: rp.Pick(rt, "wFormat", envb.MTJWS, envb.MTCOSE), Select: rapid.IntRange(0, n-1).Draw(rt, "wSelect")})
